@@ -534,3 +534,115 @@ Fixpoint apply_stages (gs : list stage) (s : it) : res it :=
 
 Definition build (src : source) (gs : list stage) : res it :=
   do s <- build_source src; apply_stages gs (IBox s).
+
+(* ==== the other consuming methods (X21) =============================================================
+   TrustIter (tea-core/src/vec_core/trusted.rs:149-183) overrides `next`, `size_hint` and `next_back`
+   ONLY; `nth`, `nth_back`, `last`, `count`, `fold`, `advance_by` are inherited from std's trait
+   defaults (core/src/iter/traits/iterator.rs, double_ended.rs):
+     advance_by(n): for i in 0..n { if self.next().is_none() { return Err(n - i) } } Ok(())
+     nth(n):        self.advance_by(n).ok()?; self.next()              = `nth_by next n`
+     nth_back(n):   self.advance_back_by(n).ok()?; self.next_back()    = `nth_by next_back n`
+     fold(init, f): while let Some(x) = self.next() { acc = f(acc, x) } acc
+     last():        self.fold(None, |_, x| Some(x))
+     count():       self.fold(0, |n, _| n + 1)
+   i.e. at most k+1 calls of next(), stopping at the first None.  The std adaptors below a TrustIter
+   that do override `nth` (Chain, Skip, Take, Rev, Enumerate, slice / range sources) promise the same
+   observable result; that promise is checked by the correspondence run, not assumed by the theorems
+   (which are about this model).                                                                    *)
+Definition nthd (back : bool) (k : nat) (s : it) : option val * it := nth_by (nextd back) k s.
+Definition nth_it (k : nat) (s : it) : option val * it := nthd false k s.
+Definition nth_back_it (k : nat) (s : it) : option val * it := nthd true k s.
+
+(* what a caller writes by hand: `for _ in 0..k { it.next(); } it.next()` — k+1 calls, no early exit *)
+Fixpoint calls (back : bool) (k : nat) (s : it) : option val * it :=
+  match k with 0 => nextd back s | S k' => calls back k' (snd (nextd back s)) end.
+
+(* one more call unless the previous one already returned None (the early exit of advance_by) *)
+Definition and_next (back : bool) (p : option val * it) : option val * it :=
+  match fst p with Some _ => nextd back (snd p) | None => p end.
+
+(* Iterator::advance_by / DoubleEndedIterator::advance_back_by: (number of steps NOT taken, state) *)
+Fixpoint advance_by (back : bool) (k : nat) (s : it) : nat * it :=
+  match k with
+  | 0 => (0, s)
+  | S k' => let '(o, s') := nextd back s in
+            match o with Some _ => advance_by back k' s' | None => (k, s') end
+  end.
+
+(* Iterator::fold / DoubleEndedIterator::rfold; the fuel bounds the number of Some items (drain's bound) *)
+Fixpoint fold_n {A : Type} (fuel : nat) (back : bool) (f : A -> val -> A) (acc : A) (s : it) : A * it :=
+  match fuel with
+  | 0 => (acc, s)
+  | S k => let '(o, s') := nextd back s in
+           match o with Some x => fold_n k back f (f acc x) s' | None => (acc, s') end
+  end.
+Definition fold_it {A : Type} (back : bool) (f : A -> val -> A) (acc : A) (s : it) : A * it :=
+  fold_n (S (length (elems s))) back f acc s.
+Definition last_it (s : it) : option val * it := fold_it false (fun _ x => Some x) None s.
+Definition count_it (s : it) : nat * it := fold_it false (fun n _ => S n) 0 s.
+
+(* the instruction set of consumption scripts *)
+Inductive instr :=
+| INext
+| INextBack
+| INth (k : nat)
+| INthBack (k : nat).
+
+Definition instr_back (c : instr) : bool :=
+  match c with INext | INth _ => false | INextBack | INthBack _ => true end.
+
+Definition exec (c : instr) (s : it) : option val * it :=
+  match c with
+  | INext => next s
+  | INextBack => next_back s
+  | INth k => nth_it k s
+  | INthBack k => nth_back_it k s
+  end.
+
+Fixpoint run_script (cs : list instr) (s : it) : it :=
+  match cs with [] => s | c :: r => run_script r (snd (exec c s)) end.
+
+Definition instr_of_bool (c : bool) : instr := if c then INextBack else INext.
+
+(* ---- adaptors built on nth: Skip (already a node: its next() is `iter.nth(take(&mut n))`) and StepBy.
+   core/src/iter/adapters/step_by.rs, the generic (non-Range) implementation:
+     new(iter, step):   assert!(step != 0); StepBy { iter, step_minus_one: step - 1, first_take: true }
+     next():            let k = if first_take { 0 } else { step_minus_one }; first_take = false; iter.nth(k)
+     size_hint():       first_take: n == 0 ? 0 : 1 + (n - 1) / (step_minus_one + 1);  else n / (step_minus_one + 1)
+   StepBy is a wrapper around a state (not a node of `it`): the library declares it TrustedLen
+   (trusted.rs:99) and it is the std client that calls `nth` on a TrustIter for every item.          *)
+Record stepby := StepBy { sb_iter : it; sb_step1 : nat; sb_first : bool }.
+
+Definition step_by (n : nat) (s : it) : res stepby :=
+  if n =? 0 then Panic AssertFail else Ok (StepBy s (n - 1) true).
+
+Definition sb_next (t : stepby) : option val * stepby :=
+  let k := if sb_first t then 0 else sb_step1 t in
+  let '(o, i') := nth_it k (sb_iter t) in (o, StepBy i' (sb_step1 t) false).
+
+Definition sb_size (first : bool) (step1 n : nat) : nat :=
+  if first then (if n =? 0 then 0 else 1 + (n - 1) / (step1 + 1)) else n / (step1 + 1).
+
+Definition sb_size_hint (t : stepby) : nat * option nat :=
+  (sb_size (sb_first t) (sb_step1 t) (fst (size_hint (sb_iter t))),
+   option_map (sb_size (sb_first t) (sb_step1 t)) (snd (size_hint (sb_iter t)))).
+
+Fixpoint sb_drain_n (fuel : nat) (t : stepby) : list val :=
+  match fuel with
+  | 0 => []
+  | S k => let '(o, t') := sb_next t in match o with Some x => x :: sb_drain_n k t' | None => [] end
+  end.
+Definition sb_drain (t : stepby) : list val := sb_drain_n (S (length (elems (sb_iter t)))) t.
+
+Fixpoint sb_consume (k : nat) (t : stepby) : stepby :=
+  match k with 0 => t | S k' => sb_consume k' (snd (sb_next t)) end.
+
+(* the abstract sequence of a StepBy: every (step1+1)-th element, from offset 0 (first) or step1 *)
+Fixpoint every_nth (fuel step1 : nat) (l : list val) : list val :=
+  match fuel with
+  | 0 => []
+  | S f => match l with [] => [] | x :: r => x :: every_nth f step1 (skipn step1 r) end
+  end.
+Definition sb_elems (t : stepby) : list val :=
+  let l := elems (sb_iter t) in
+  every_nth (length l) (sb_step1 t) (if sb_first t then l else skipn (sb_step1 t) l).
